@@ -662,7 +662,26 @@ func judgeFidelity(r *Run, j *Judged, c *cls) {
 	// header provenance chain: the 304s that may have freshened B up to (and including) H
 	var chain []*OResp
 	if c.H != nil && c.H != c.B {
-		_, _, chain = r.validationChain(c.B, c.H.SeqResp+1)
+		// every 304 that may have contributed header fields: concurrent (background) validations work on
+		// copies of the entry and overwrite each other, so the history need not be a linear chain - any 304
+		// of this resource whose request carried validators that B or a later 304 of it ever had qualifies
+		ets, lms := map[string]bool{"": true}, map[string]bool{"": true}
+		note := func(h http.Header) { ets[h.Get("Etag")], lms[h.Get("Last-Modified")] = true, true }
+		note(c.B.Header)
+		for pass := 0; pass < 2; pass++ {
+			chain = chain[:0]
+			for _, o := range r.OResps {
+				if !o.Is304 || o.Res != c.B.Res || o.SeqResp <= c.B.SeqResp || o.SeqResp > c.H.SeqResp {
+					continue
+				}
+				inm, ims := o.Req.Header.Get("If-None-Match"), o.Req.Header.Get("If-Modified-Since")
+				if (inm == "" && ims == "") || !ets[inm] || !lms[ims] {
+					continue
+				}
+				chain = append(chain, o)
+				note(o.Header)
+			}
+		}
 		if len(chain) == 0 || chain[len(chain)-1] != c.H {
 			chain = append(chain, c.H)
 		}
